@@ -161,6 +161,9 @@ func c14Run(r *Run, depth, shard int) {
 						r.Class("ok")
 						r.Violate("C14 transaction succeeded although a dependency call failed: "+pb.name,
 							fmt.Sprintf("[%s] %s: dependency calls %s", flags, a.Desc, depsStr(o.Deps)), rp("error (rolled back)", "ok"))
+					case o.OK && p.Exp == MustFail && !c14Late(p):
+						// refused for a reason that is checked before any fund movement: not this property's subject
+						r.Class("ok")
 					case o.OK && p.Exp == MustFail:
 						r.Class("ok")
 						r.Violate("C14 transaction succeeded although a validation after the fund movement fails: "+pb.name,
@@ -228,4 +231,28 @@ func c14PublicUnchanged(r *Run, w *World, pre View, name string, a Action, rp fu
 	if err != nil || q.Nonce.Nonce != pre.NextNonce {
 		r.Violate("C14 next-nonce query differs after a rolled-back transaction: "+name, a.Desc, rp("", ""))
 	}
+}
+
+// c14Late: every violated precondition is one that is only checked after funds were
+// moved (deposit: after transfer and burn) or after the nonce was marked (receive).
+func c14Late(p Pred) bool {
+	late := map[string]bool{
+		// deposit: validations of the inner send
+		"sending and receiving not paused": true, "132-byte body fits the maximum body size": true,
+		"destination caller non-zero 32 bytes": true, "mint recipient non-zero 32 bytes": true,
+		"non-zero token messenger registered for the destination": true,
+		// receive: everything after the nonce is marked
+		"minting not paused": true, "body is a 132-byte burn message": true, "burn message version 0": true,
+		"sender is the registered token messenger": true, "local token linked to (source domain, burn token)": true, "mint succeeds": true,
+	}
+	n := 0
+	for _, c := range p.Conds {
+		if !c.OK {
+			if !late[c.Name] {
+				return false
+			}
+			n++
+		}
+	}
+	return n > 0
 }
